@@ -89,6 +89,7 @@ def reset_state():
     N.reset_agg_state()
     AXIOMS_USED.clear()
     ENV.clear()
+    RANK_APPS.clear()
 
 
 def _expr_id(e: "PlExpr"):
@@ -508,6 +509,14 @@ class PlExpr:
     def rank(self, method="average", descending=False):
         r = self._win("rank", method, descending=descending)
         r.pltype = UInt32
+        if method in ("dense", "min") and not descending and self.node[0] != "struct":
+            # value model on the generic row: null key -> null rank; the rank function itself is
+            # uninterpreted, its order facts are instantiated by the obligation (rank_facts)
+            f = z3.Function(f"rank_{method}_{self.nv.sort}", self.nv.sort, INT)
+            rv = f(self.nv.val)
+            RANK_APPS.append((method, self.nv, rv))
+            _ax("polars: x.rank('dense') is null for a null x, lies in 1..len, and is strictly monotone in x (equal keys get equal ranks)")
+            r.nv = NV(self.nv.null, rv)
         return r
 
     def shift(self, n=1, fill_value=None):
@@ -672,6 +681,19 @@ class _DtNS:
 # module level functions
 
 ENV: dict = {}  # physical column name -> PlExpr  (set by the obligation)
+RANK_APPS: list = []
+
+
+def rank_facts():
+    """order facts of the dense rank instantiated for all recorded applications (pairwise)"""
+    facts = []
+    for m, k, r in RANK_APPS:
+        facts.append(z3.Implies(z3.Not(k.null), z3.And(r >= 1, r <= G_ROWS)))
+    for m1, k1, r1 in RANK_APPS:
+        for m2, k2, r2 in RANK_APPS:
+            if m1 == m2 == "dense" and k1.sort == k2.sort and r1.get_id() != r2.get_id():
+                facts.append(z3.Implies(z3.And(z3.Not(k1.null), z3.Not(k2.null)), N.lt_t(k1.val, k2.val) == (r1 < r2)))
+    return facts
 
 
 def col(name, *more):
